@@ -254,9 +254,13 @@ pub fn c07(a: &Args, rep: &mut Report) {
             families: &["uniform", "tiny", "lattice", "blattice", "coplanar", "uniform"],
             ..Default::default()
         };
+        // never truncate a structured family (a partial lattice on the walls is outside the conditioned domain):
+        // draw again until the input is small enough
         let mut c = gen_case("C07x", &a.tier, a.seed, k, &o);
-        if c.n() > nmax {
-            c.pts.truncate(nmax);
+        let mut j = 1u64;
+        while c.n() > nmax {
+            c = gen_case("C07x", &a.tier, a.seed, k + 1_000_003 * j, &o);
+            j += 1;
         }
         let nn = c.n();
         for bits in 0..(1u32 << nn) {
@@ -395,8 +399,10 @@ pub fn c12(a: &Args, rep: &mut Report) {
             ..Default::default()
         };
         let mut c = gen_case("C12x", &a.tier, a.seed, k, &o);
-        if c.n() > nmax {
-            c.pts.truncate(nmax);
+        let mut j = 1u64;
+        while c.n() > nmax {
+            c = gen_case("C12x", &a.tier, a.seed, k + 1_000_003 * j, &o);
+            j += 1;
         }
         let nn = c.n();
         for bits in 0..(1u32 << nn) {
